@@ -490,10 +490,11 @@ def check_map_invariants(c):
     if len(c.info) != c.blockmax:
         probs.append("info covers %d of %d" % (len(c.info), c.blockmax))
     else:
-        for (d, pos) in used:
-            if c.info[pos] is None:
-                probs.append("position %d used but has no info" % pos)
-                break
+        for f in c.files:
+            for (pos, st, _h) in f.blocks:
+                if st == BLK and pos < len(c.info) and c.info[pos] is None:
+                    probs.append("position %d has a synced block but no info" % pos)
+                    break
     names = [m["name"] for m in c.maps]
     if len(set(names)) != len(names):
         probs.append("duplicate disk names in map")
